@@ -227,6 +227,7 @@ def known_bad_irs():
     out["builder-type"] = (ir.definition(types=[ir.object_("Builder", [ir.field("a", P("INTEGER"))], package="com.kb")]), {}, "C03:compile:known:builder-type")
     out["builder-field"] = (ir.definition(types=[ir.object_("HasBuilderField", [ir.field("builder", P("INTEGER")), ir.field("build", P("STRING"))], package="com.kb")]),
                             {}, "C03:compile:known:builder-field")
+    out["enum-variant-clash"] = (ir.definition(types=[ir.enum_("Proto", ["HTTP_1", "HTTP1", "OTHER"], package="com.kb")]), {}, "C03:compile:known:enum-variant-clash")
     return out
 
 
